@@ -16,7 +16,19 @@
 (*    Iterator is invalid" -> empty), bounds between keys;                  *)
 (*  - Set/Delete/Get on a wrapper while iterators on THAT wrapper are open: *)
 (*    an open iterator is a snapshot taken at creation and is not disturbed;*)
-(*  - Write, CacheWrap (nesting), discard.                                  *)
+(*  - Write, CacheWrap (nesting), discard;                                  *)
+(*  - REFUSED calls on a cache wrapper (any depth): Set with a nil value    *)
+(*    (types.AssertValidValue) and Get/Has/Set/Delete with a nil key        *)
+(*    (types.AssertValidKey).  cachekv.Store refuses them with a panic      *)
+(*    before it reads the parent or touches its cache, so the call yields   *)
+(*    res = "panic" and has NO effect: a refused call is not one of the     *)
+(*    wrapper's sets or deletes, the view of every store, the open          *)
+(*    iterators and the memoisation state (used) are what they were, and    *)
+(*    the wrapper stays usable (the caller recovers, as baseapp.runTx does).*)
+(*    Labels: SetNil(s, k), GetNoKey(s), HasNoKey(s), DeleteNoKey(s),       *)
+(*    SetNoKey(s, v).  Not generated on store 0: dbadapter.Store{MemDB}     *)
+(*    does not refuse them (tm-db nonNilBytes turns a nil value into an     *)
+(*    empty value and a nil key into the empty key).                        *)
 (* What is OUT of contract (never generated; the spec drops the objects):   *)
 (*  - reading an iterator after a store it reads through (any proper        *)
 (*    ancestor of its wrapper) was mutated, or after its wrapper was        *)
@@ -184,6 +196,14 @@ Write(w) ==
      /\ its' = [i \in 1..MaxIt |-> IF ItDead(i, p, gone) THEN NoIt ELSE its[i]]
   /\ res' = "ok"
 
+\* a call the wrapper refuses with a panic (nil value / nil key): no effect whatsoever.  `used` is
+\* untouched as well: AssertValidKey/AssertValidValue run before the parent is read or the cache written.
+RefusedOps == {"SetNil", "GetNoKey", "HasNoKey", "DeleteNoKey", "SetNoKey"}
+Refused(s) ==
+  /\ s \in W /\ Usable(s)
+  /\ res' = "panic"
+  /\ UNCHANGED <<base, par, ov, used, its>>
+
 FreeW == {n \in W : par[n] = -1}
 CacheWrap(s) ==
   /\ Usable(s) /\ Depth(s) < MaxDepth /\ FreeW # {}
@@ -233,6 +253,10 @@ ANext ==
         \/ Write(w) /\ act' = Lbl("Write", w, <<>>, "", None, None, TRUE, 0)
         \/ Discard(w) /\ act' = Lbl("Discard", w, <<>>, "", None, None, TRUE, 0)
   \/ \E s \in Stores : CacheWrap(s) /\ act' = Lbl("CacheWrap", s, <<>>, "", None, None, TRUE, 0)
+  \/ \E s \in W :
+        \/ \E k \in Keys : Refused(s) /\ act' = Lbl("SetNil", s, k, "", None, None, TRUE, 0)
+        \/ \E o \in {"GetNoKey", "HasNoKey", "DeleteNoKey"} : Refused(s) /\ act' = Lbl(o, s, <<>>, "", None, None, TRUE, 0)
+        \/ \E v \in SetVals(s) : Refused(s) /\ act' = Lbl("SetNoKey", s, <<>>, v, None, None, TRUE, 0)
 
 ASpec == AInit /\ [][ANext]_allvars
 
@@ -275,9 +299,16 @@ Act_DiscardNoEffect ==
      /\ base' = base
      /\ \A s \in W : par'[s] # -1 => (ov'[s] = ov[s] /\ ViewIn(base', par', ov', s) = View(s))
 
+\* a refused call reports the panic and takes effect not at all (atomicity of each call)
+Act_RefusedNoEffect ==
+  act'.op \in RefusedOps =>
+     /\ res' = "panic"
+     /\ UNCHANGED <<base, par, ov, used, its>>
+     /\ \A s \in Stores : Exists(s) => ViewIn(base', par', ov', s) = View(s)
+
 \* result predicates are checked on every transition as well (res/act are outside the VIEW; TLC
 \* evaluates INVARIANTS only on states whose view is new)
-AProp == [][Act_UnchangedUntilWrite /\ Act_WriteAppliesView /\ Act_DiscardNoEffect
+AProp == [][Act_UnchangedUntilWrite /\ Act_WriteAppliesView /\ Act_DiscardNoEffect /\ Act_RefusedNoEffect
             /\ Inv_IterationIsView' /\ Inv_ReadsAreView']_allvars
 
 \* ---- constant sets for the configurations ------------------------------------------------
